@@ -445,8 +445,7 @@ func (gr *genRun) loopProgress(rf *RecFacts) {
 		ast.Inspect(body, func(m ast.Node) bool {
 			switch y := m.(type) {
 			case *ast.IfStmt:
-				src := rf.GF.Snippet(y.Cond)
-				if strings.HasPrefix(src, "len(buf[at:]) <") {
+				if _, isRem := wire.RemainingBelow(y.Cond); isRem {
 					progress = true
 				}
 			case *ast.CallExpr:
@@ -494,8 +493,7 @@ func (gr *genRun) precededByBulkCheck(rf *RecFacts, fd *ast.FuncDecl, loop ast.N
 		for i, s := range list {
 			if s == loop && i > 0 {
 				if ifs, ok := list[i-1].(*ast.IfStmt); ok {
-					src := rf.GF.Snippet(ifs.Cond)
-					if strings.HasPrefix(src, "len(buf[at:]) < len(") {
+					if bound, isRem := wire.RemainingBelow(ifs.Cond); isRem && strings.HasPrefix(rf.GF.Snippet(bound), "len(") {
 						found = true
 					}
 				}
